@@ -11,6 +11,7 @@ keywords are deleted, compiles on the host with the keywords defined away, and i
 carries __global.
 """
 import ast
+import json
 import os
 import random
 import re
@@ -223,7 +224,7 @@ def unqualified_pointers(text):
     return bad
 
 
-def bounded_c15(tier, seed):
+def c15_history(tier, seed, order):
     X = grammar.xo()
     specialize_source = _spec()
     sl = grammar.Slice(tier)
@@ -232,40 +233,90 @@ def bounded_c15(tier, seed):
     violations = []
     samples = []
     classes = X.context.sort_classes(list(sl.roots))
-    pieces = []
-    for cls in classes:
-        s = cls._gen_c_api()
-        pieces.append(s.source if hasattr(s, "source") else s)
-    full = "\n".join(pieces)
-    forms = {}
-    for tgt in TARGETS:
-        forms[tgt] = specialize_source(full, specialize_for=tgt)
-    ref = tokens_wo_qualifiers(forms["cpu_serial"])
-    for tgt in TARGETS:
+
+    def bare_declarations():
+        for cls in classes:
+            if hasattr(cls, "_gen_c_decl"):
+                cls._gen_c_decl({})
+
+    def cpu_build():
+        from xobjects import capi
+        from xobjects.typeutils import default_conf
+
+        kernels = {}
+        for cls in sl.roots:
+            for path in cls._gen_data_paths():
+                for _src, k in capi.methods_from_path(cls, path, default_conf):
+                    if k is not None:
+                        kernels[k.c_name] = k
+        X.ContextCpu().add_kernels(kernels=kernels, extra_classes=sl.roots)
+
+    # the source is generated again after other uses of the generator in this process (declarations with the bare configuration that
+    # the CPU context asks for, a complete CPU build): what was generated before must not leak into the specialised forms
+    full = forms = None
+    steps = {"fresh": None, "after-bare-declarations": bare_declarations, "after-cpu-build": cpu_build}
+    for k_, hist0 in enumerate(order):
+        before = steps[hist0]
+        hist = "+".join(order[:k_ + 1])
+        if before is not None:
+            before()
+        pieces = []
+        for cls in classes:
+            s_ = cls._gen_c_api()
+            pieces.append(s_.source if hasattr(s_, "source") else s_)
+        full = "\n".join(pieces)
+        forms = {}
+        for tgt in TARGETS:
+            forms[tgt] = specialize_source(full, specialize_for=tgt)
+        ref = tokens_wo_qualifiers(forms["cpu_serial"])
+        for tgt in TARGETS:
+            evals += 1
+            distinct.add(("tokens", tgt, hist))
+            tk = tokens_wo_qualifiers(forms[tgt])
+            if tk != ref:
+                k = next((i for i, (a, b) in enumerate(zip(tk, ref)) if a != b), min(len(tk), len(ref)))
+                violations.append({"case_key": f"tokens:{tgt}", "target": tgt, "history": hist, "first_difference_at_token": k,
+                                   "cpu": " ".join(ref[max(0, k - 8):k + 8]), "other": " ".join(tk[max(0, k - 8):k + 8])})
+            r = subprocess.run(["gcc", "-std=gnu99", "-fsyntax-only", "-w", "-D__global=", "-D__kernel=", "-D__device__=", "-D__global__=", "-x", "c", "-"],
+                               input="#include <stdint.h>\n" + forms[tgt], capture_output=True, text=True)
+            evals += 1
+            distinct.add(("compile", tgt, hist))
+            if r.returncode != 0:
+                violations.append({"case_key": f"compile:{tgt}", "target": tgt, "history": hist, "compiler_output": r.stderr[:1500]})
         evals += 1
-        distinct.add(("tokens", tgt))
-        tk = tokens_wo_qualifiers(forms[tgt])
-        if tk != ref:
-            k = next((i for i, (a, b) in enumerate(zip(tk, ref)) if a != b), min(len(tk), len(ref)))
-            violations.append({"case_key": f"tokens:{tgt}", "target": tgt, "first_difference_at_token": k,
-                               "cpu": " ".join(ref[max(0, k - 8):k + 8]), "other": " ".join(tk[max(0, k - 8):k + 8])})
-        r = subprocess.run(["gcc", "-std=gnu99", "-fsyntax-only", "-w", "-D__global=", "-D__kernel=", "-D__device__=", "-D__global__=", "-x", "c", "-"],
-                           input="#include <stdint.h>\n" + forms[tgt], capture_output=True, text=True)
-        evals += 1
-        distinct.add(("compile", tgt))
-        if r.returncode != 0:
-            violations.append({"case_key": f"compile:{tgt}", "target": tgt, "compiler_output": r.stderr[:1500]})
-    evals += 1
-    distinct.add(("global_qualifier",))
-    up = unqualified_pointers(forms["opencl"])
-    if up:
-        violations.append({"case_key": "opencl:pointer_without_global", "examples": up[:5]})
+        distinct.add(("global_qualifier", hist))
+        up = unqualified_pointers(forms["opencl"])
+        if up:
+            violations.append({"case_key": "opencl:pointer_without_global", "history": hist, "examples": up[:5]})
     samples.append({"classes": [c.__name__ for c in classes], "source_chars": len(full), "opencl_excerpt": forms["opencl"][:500]})
+    return {"evaluations": evals, "distinct": sorted(map(list, distinct)), "violations": violations, "samples": samples}
+
+
+def bounded_c15(tier, seed):
+    from . import common
+
+    evals, distinct, violations, samples = 0, set(), [], []
+    # the generator is a process-wide piece of code: each order of uses runs in an interpreter of its own
+    for order in (["fresh", "after-bare-declarations", "after-cpu-build"], ["after-bare-declarations", "fresh"], ["after-cpu-build", "fresh"]):
+        if os.environ.get("VERIF_NO_ISOLATE") or order[0] == "fresh":
+            st, r = "ok", c15_history(tier, seed, order)
+        else:
+            st, r = common.isolated_call("checks.specsrc_native", "c15_history", {"tier": tier, "seed": seed, "order": order})
+        if st != "ok":
+            if st == "error" and "/xobjects/" not in r:
+                raise RuntimeError("bounded part failed:\n" + r)
+            violations.append({"case_key": "native:" + st, "history": "+".join(order), "problem": (r if isinstance(r, str) else json.dumps(r))[-1500:]})
+            continue
+        evals += r["evaluations"]
+        distinct |= {tuple(x) for x in r["distinct"]}
+        violations += r["violations"]
+        samples += r["samples"][:1] if not samples else []
     return {
         "evaluations": evals, "distinct_nontrivial": len(distinct),
         "rule": "accessor source of every class of the grammar slice (dependency-sorted, concatenated), specialised for the 4 targets: "
                 "token identity after deleting qualifier keywords, host syntax check with the keywords defined away, every pointer type "
-                "of the OpenCL form carries __global; distinct by (check, target)",
+                "of the OpenCL form carries __global; in three orders of use of the generator, each in its own interpreter (fresh; after the "
+                "bare-configuration declarations a CPU context asks for; after a complete CPU build); distinct by (check, target, history)",
         "exhaustive": False, "violations": _by_key(violations), "samples": samples,
     }
 
